@@ -64,6 +64,11 @@ type Assembly struct {
 	LongLived bool
 	llCA      *gcsca.CertificateAuthority
 	llStore   *doubles.FStore
+	// LongLivedKM keeps ONE localkm manager value (and its in-memory view of the key directory) across commands
+	// while other commands may run in fresh processes on the same directory.
+	LongLivedKM bool
+	llSigner    *nonprod.Signer
+	llManager   keys.ManagerInterface
 
 	// per-command state (set by Context)
 	F      *doubles.FCtl
@@ -123,6 +128,24 @@ func (a *Assembly) freshSigner() (*nonprod.Signer, keys.ManagerInterface, error)
 	return s, t, nil
 }
 
+// commandSigner is what a command uses: the retained manager value when LongLivedKM is set, else a fresh load.
+func (a *Assembly) commandSigner() (*nonprod.Signer, keys.ManagerInterface, error) {
+	if a.KM == LocalKM && a.LongLivedKM {
+		if a.llManager == nil {
+			s, m, err := a.freshSigner()
+			if err != nil {
+				return nil, nil, err
+			}
+			a.llSigner, a.llManager = s, m
+		}
+		return a.llSigner, a.llManager, nil
+	}
+	return a.freshSigner()
+}
+
+// DropLongLivedKM forgets the retained key manager value (that process ended).
+func (a *Assembly) DropLongLivedKM() { a.llSigner, a.llManager = nil, nil }
+
 // FreshCA returns an unwrapped authority as a new process would load it.
 func (a *Assembly) FreshCA() styp.CertificateAuthority {
 	if a.CA == MemCA {
@@ -145,7 +168,7 @@ type Opts struct {
 // Context builds the keys/output context of one command with every component wrapped by f.
 func (a *Assembly) Context(f *doubles.FCtl, o Opts) (context.Context, error) {
 	a.F = f
-	s, mgr, err := a.freshSigner()
+	s, mgr, err := a.commandSigner()
 	if err != nil {
 		return nil, err
 	}
@@ -267,6 +290,7 @@ func (a *Assembly) Snapshot() *Snap {
 // Restore puts a snapshot back (the snapshot stays reusable).
 func (a *Assembly) Restore(s *Snap) {
 	a.DropLongLived()
+	a.DropLongLivedKM()
 	if a.MemSigner != nil {
 		a.MemSigner.Keys = map[string]*rsa.PrivateKey{}
 		for k, v := range s.keys {
